@@ -14,10 +14,15 @@ def main(tier, t0):
     tasks = stage_check.tasks_for("C04", tier, scenario="single", sizes=_sizes, cfg={"want_shacl": True})
     tasks += stage_check.tasks_for("C04", tier, scenario="pair:disable_or_statements", sizes=_sizes, cfg={"want_shacl": True},
                                    structure_filter=lambda st: any(t in st["tags"] for t in ("iri+bnode", "ref-tie", "mixed-typed-values")) or st["name"] in ("ref-vs-iri", "typed-bnode-values"))
+    # options that act outside the symbolically executed stage (example and IRI-stem bookkeeping, instance cap): the real pipeline of every end-to-end witness runs with them
+    import json
+    for opt in ({"examples_mode": "all", "detect_minimal_iri": True}, {"instances_cap": 1}):
+        tasks += stage_check.tasks_for("C04", tier, scenario="pair:e2e:" + json.dumps(opt, sort_keys=True), sizes=lambda t, k: [k + 1] if t == "quick" else [k, k + 1, k + 2],
+                                       structure_filter=lambda st: any(t in st["tags"] for t in ("iri+bnode", "mixed-typed-values")) or st["name"] in ("ref-vs-iri", "typed-bnode-values", "bnode-instances", "own-links", "incoming-cards", "multi-typed", "sm-chain", "sm-sink"))
     fnt = [f for f in load_findings("C04") if f.get("family") == "nt"]
     fttl = [f for f in load_findings("C04") if f.get("family") == "ttl"]
-    nts = [x for x in nt.skeletons(tier) if x[0].startswith(("nodes/", "tail/", "lit/FF/", "lit/F/", "lit/empty/"))]
-    ttls = [x for x in ttl.skeletons(tier) if x[0].startswith(("lit/F/", "lit/empty/", "lit/FF/", "int/", "base/", "rebind"))]
+    nts = [x for x in nt.skeletons(tier) if x[0].startswith(("nodes/", "tail/", "lit/FF/", "lit/FFF/", "lit/F/", "lit/empty/"))]
+    ttls = [x for x in ttl.skeletons(tier) if x[0].startswith(("lit/F/", "lit/empty/", "lit/FF/", "lit/FFF/", "int/", "base/", "rebind"))]
     tasks += [("harness.nt", "run_obligation", "nt-noraise/" + n, dict(spec=s, findings=fnt, check_c04_only=True)) for n, s in nts]
     tasks += [("harness.ttl", "run_obligation", "ttl-noraise/" + n, dict(spec=s, findings=fttl, check_c04_only=True)) for n, s in ttls]
     tasks += [("harness.api", "run_obligation", "api/" + n, dict(name=n)) for n in ("profile_graph/string", "profile_graph/file", "shex_graph/sinks")]
